@@ -492,10 +492,14 @@ func (w *walWorld) runLoggers(ops []walOp, base int, c *Case) {
 	}
 	hydro := w.hydro
 	gen := w.gen
-	for t, idxs := range byTask {
+	var taskIDs []int
+	for t := range byTask {
+		taskIDs = append(taskIDs, t)
+	}
+	sort.Ints(taskIDs) // never let Go's map order decide in which order tasks start
+	for _, t := range taskIDs {
+		idxs := byTask[t]
 		wg.Add(1)
-		idxs := idxs
-		_ = t
 		go func() {
 			defer wg.Done()
 			for _, k := range idxs {
